@@ -936,9 +936,11 @@ class Facts:
                 if n_.get("k") == "Call":
                     pl_ = path_local(n_["f"]) if isinstance(n_.get("f"), dict) else None
                     c_ = clos.get(pl_[1]) if pl_ else None
-                    if c_ is not None and len(c_.get("params", [])) == len(n_.get("args", [])) and all(p_.get("k") == "Binding" and not p_.get("sub") for p_ in c_["params"]):
+                    if c_ is not None and len(c_.get("params", [])) == len(n_.get("args", [])) and all((p_.get("k") == "Binding" and not p_.get("sub")) or p_.get("k") == "Wild" for p_ in c_["params"]):
                         b_ = c_["body"]
                         for p_, a_ in zip(c_["params"], n_["args"]):
+                            if p_.get("k") == "Wild":
+                                continue    # `|_| true`: the argument (a place or a field of one) is not looked at
                             b_ = subst_local(b_, p_["lid"], a_)
                         return {"k": "BlockExpr", "span": n_["span"], "ty": n_.get("ty"), "beta": True, "block": {"k": "Block", "span": n_["span"], "stmts": [], "expr": b_}}
                 return n_
